@@ -123,6 +123,10 @@ func DrawFileSpec(t *tape.Tape, o FileOpts) FileSpec {
 	if s.Size > max {
 		s.Size = max
 	}
+	if s.Size/cs > 3000 {
+		// keep DAGs to a few thousand blocks whatever the size bound
+		s.Size = 3000*cs + s.Size%cs
+	}
 	if o.MultiBlock && s.Size < 2*cs {
 		s.Size = 2*cs + int(raw%uint64(8*cs+1))
 		if s.Size > max {
